@@ -52,7 +52,7 @@ impl Prop for P {
         }
     }
     fn cases(tier: Tier) -> u64 {
-        tier.pick(60_000, 600_000)
+        tier.pick(300_000, 3_000_000)
     }
     fn strategy(tier: Tier) -> BoxedStrategy<Case> {
         let data = match tier {
